@@ -73,7 +73,7 @@ func ruleEntryPoints(c *Ctx) {
 					parseOK = parseOK || cd.Op == token.EQL
 				}
 			}
-			r0, r1 := sp.Ret[0].String(), sp.Ret[1].String()
+			r0, r1 := sp.Ret[0].String(), unwrapW(sp.Ret[1].String())
 			switch {
 			case stateFailed:
 				nErr++
@@ -128,7 +128,7 @@ func ruleEntryPoints(c *Ctx) {
 				optErr = cd.L.String()
 			}
 		}
-		r0, r1 := sp.Ret[0].String(), sp.Ret[1].String()
+		r0, r1 := sp.Ret[0].String(), unwrapW(sp.Ret[1].String())
 		switch {
 		case cpuBad:
 			nCPU++
